@@ -41,6 +41,7 @@ class FuncInfo:
     node: ast.FunctionDef | ast.AsyncFunctionDef
     cls: Optional["ClassInfo"] = None
     parent: Optional["FuncInfo"] = None  # enclosing function for nested defs
+    absorbed: bool = False  # private helper whose every call site was inlined into its callers (sa/inline.py)
 
     @property
     def name(self) -> str:
@@ -52,6 +53,9 @@ class FuncInfo:
 
     def loc(self, node: ast.AST | None = None) -> str:
         n = node if node is not None else self.node
+        orig = getattr(n, "_orig_loc", None)
+        if orig is not None:
+            return f"{SRC_SUBDIR}/{orig[0]}:{orig[1]}"
         return f"{SRC_SUBDIR}/{self.module.relpath}:{getattr(n, 'lineno', 0)}"
 
     def params(self) -> list[str]:
@@ -136,6 +140,11 @@ class Program:
         self._subclasses: dict[str, set[str]] = {}
         self._load()
         self._index()
+        self.inline_summary: dict = {}
+        if not os.environ.get("VERIF_NO_INLINE"):
+            from .inline import inline_program
+
+            self.inline_summary = inline_program(self)
 
     # ------------------------------------------------------------------ loading
     def _iter_files(self) -> Iterator[tuple[str, str]]:
@@ -476,9 +485,16 @@ class Resolver:
             return self._single
         counts: dict[str, int] = {}
         vals: dict[str, ast.expr] = {}
+        nones: dict[str, int] = {}
 
         def bump(t: ast.AST, v: ast.expr | None):
             if isinstance(t, ast.Name):
+                if isinstance(v, ast.Constant) and v.value is None and not isinstance(t.ctx, ast.Del):
+                    # `x = None` is the absence sentinel next to the one real definition (typical after helper inlining:
+                    # `try: x = read() except: x = None`); it does not make x multi-valued for provenance purposes
+                    nones[t.id] = nones.get(t.id, 0) + 1
+                    vals.setdefault(t.id, v)
+                    return
                 counts[t.id] = counts.get(t.id, 0) + 1
                 if v is not None:
                     vals[t.id] = v
@@ -513,6 +529,9 @@ class Resolver:
                 counts[n.name] = counts.get(n.name, 0) + 1
         for p in self.fn.params():
             counts[p] = counts.get(p, 0) + 1
+        for k, c in nones.items():
+            if counts.get(k, 0) == 0:
+                counts[k] = c  # only ever None
         self._assign_counts = counts
         self._single = {k: v for k, v in vals.items() if counts.get(k) == 1}
         return self._single
